@@ -31,6 +31,7 @@ type Call struct {
 }
 
 type fileInfo struct {
+	harness bool // owned by the harness (not counted as a leak of the code under test)
 	idx    int
 	fd     int
 	closed bool
@@ -319,11 +320,21 @@ func asyncClose(f *os.File) {
 // DrainCloses waits until every deferred close has been performed.
 func DrainCloses() { closeWG.Wait() }
 
+// Disown marks a file as the harness's responsibility (the original inotify
+// file after a pipe was substituted for it).
+func Disown(f *os.File) {
+	if s := st(); s != nil {
+		if fi := s.files[f]; fi != nil {
+			fi.harness = true
+		}
+	}
+}
+
 // OpenFds lists registered inotify/pipe files the code under test has not closed.
 func (s *State) OpenFds() []int {
 	var out []int
 	for _, fi := range s.files {
-		if !fi.closed {
+		if !fi.closed && !fi.harness {
 			out = append(out, fi.fd)
 		}
 	}
